@@ -276,7 +276,15 @@ class HTTP2Connection(ConnectionInterface):
             )
         ]
 
-        self._h2_state.send_headers(stream_id, headers, end_stream=end_stream)
+        try:
+            self._h2_state.send_headers(stream_id, headers, end_stream=end_stream)
+        except h2.exceptions.ProtocolError:
+            # The h2 package validates the headers while it is encoding them.
+            # Fields that it had already dealt with have been added to the HPACK
+            # encoder state, which is now ahead of what the server will see.
+            # We must not encode any further requests on this connection.
+            self._connection_error = True
+            raise
         self._h2_state.increment_flow_control_window(2**24, stream_id=stream_id)
         self._write_outgoing_data(request)
 
